@@ -611,7 +611,9 @@ def check_removed_children(C, tmp, text):
 # --------------------------------------------------------------------------- generators
 TITLES = ["A", "B", "K", "KIND", "MD", "EACH", "PRINT", "kind", "Each", "SUBSYS", "ENERGY"]
 SETTS = ["X", "Y", "H", "O", "OFF", "ON", "#c"]
-KEYS = ["STEPS", "TEMP", "FILE", "MD", "A", "K", "steps"]
+# incl. keys that are a prefix / an extension of another key (STEP ⊂ STEPS, TEMP ⊂ TEMPERATURE): a request for one
+# must leave a line of the other alone (whole-keyword matching, the CP2K analogue of C19:lammps:unrequested-word-edited)
+KEYS = ["STEPS", "TEMP", "FILE", "MD", "A", "K", "steps", "STEP", "TEMPERATURE"]
 VALS = ["5", "0.5", "a b", "[fs] 2", "x"]
 # requested values of every Python kind, incl. the falsy-but-valid ones (0, 0.0, False, "") and "0"
 ODD_VALS = [None, 7, 0, 0.0, False, "", "0", True, -1.5]
